@@ -31,7 +31,7 @@ def build(repo):
                 for d in (0, 1, 2, 3):
                     n = 'step_%s_%s_%s_%s' % (K[a], K[b], K[c], K[d])
                     gs.append('step!(%s, %d, %d, %d, %d);' % (n, a, b, c, d))
-                    numeric = all(x in (0, 1) for x in (a, b, c)) and d in (0, 1, 3)
+                    numeric = (a == b == c) and a in (0, 1) and d in (a, 3)
                     u.harness(P + n, 'property::PropertyColumn::update_zone_map_on_insert::summary_inductive[min=%s,max=%s,stored=%s,inserted=%s]' % (K[a], K[b], K[c], K[d]),
                               tier='quick' if numeric else 'thorough', props=['C14', 'C10'], timeout=600)
     for n in ('prune_null_probe', 'dirty_never_prunes', 'base_int', 'base_float', 'base_bool', 'base_null'):
@@ -44,7 +44,7 @@ def build(repo):
                     for hi in (0, 1, 9):
                         n = 'range_%s_%s_%s_%s_%s' % (KR[a], KR[b], KR[c], KR[lo], KR[hi])
                         gr.append('range!(%s, %d, %d, %d, %d, %d);' % (n, a, b, c, lo, hi))
-                        same = (a == b == c)
+                        same = (a == b == c) and (lo in (a, 9)) and (hi in (a, 9)) and not (lo == 9 and hi == 9)
                         u.harness(R + n, 'zone_map::ZoneMapEntry::might_contain_range::conservative_vs_value_in_range[min=%s,max=%s,stored=%s,lo=%s,hi=%s]' % (KR[a], KR[b], KR[c], KR[lo], KR[hi]),
                                   tier='quick' if same else 'thorough', timeout=600)
     ga = []
